@@ -66,6 +66,8 @@ void __verif_havoc_int_range(long long, long long) {}
 void __verif_assert_env(bool, const char*) {}
 void __verif_env_input_f(double) {}
 void __verif_env_input(long long) {}
+double __verif_uf_mix(double, double) { return 0.0; }
+float __verif_cg_result(double, int) { return 0.0f; }
 void harness();
 }
 int main(int argc, char** argv) {
